@@ -6,7 +6,7 @@ import os
 import sys
 import traceback
 
-sys.path.insert(0, "/verif")
+sys.path.insert(0, os.environ.get("VERIF_ROOT") or os.path.dirname(os.path.dirname(os.path.abspath(__file__))))
 from harness.common import Run, sh, COQ, NPROC  # noqa: E402
 
 
